@@ -7,7 +7,7 @@
    [is_code code pos] (specification): walking the opcode boundaries from 0,
    [pos] is reached as an opcode, i.e. is not inside PUSH immediate data.
    Guards: code bytes are bytes; len(code) < 2^64 (a Go slice length). *)
-From GV Require Import Lib.Tactics EVM.Jumpdest EVM.JumpdestProofs.
+From GV Require Import Lib.Tactics EVM.Jumpdest EVM.JumpdestProofs EVM.JumpdestCalls EVM.JumpdestCallsProofs.
 
 (* the bit vector computed by codeBitmap answers, at every position of the code,
    exactly the definition (for every bytecode: any mix and alignment of PUSH1..PUSH32,
@@ -92,6 +92,58 @@ Theorem C30_is_code_iff_reach : forall code pos,
 Proof. exact is_code_iff_reach. Qed.
 Print Assumptions C30_is_code_iff_reach.
 
+(* ---- the cache through the EVM call paths (EVM/JumpdestCalls.v) ----
+   THE PAIRING OBLIGATION.  [frame_paired H S (code, h)]: the hash a call path hands to
+   Contract.SetCallCode is zero (never cached) or is H of exactly the code handed to it.
+   Any frame that satisfies it, run by the interpreter against any consistent shared
+   cache, ends exactly as the definition-based interpreter ends on the frame's own code,
+   and leaves the cache consistent.  This is what Call / CallCode / DelegateCall /
+   StaticCall / create must satisfy for every frame. *)
+Theorem C30_paired_frame_matches_definition :
+  forall (H : list N -> hash) (S : list N -> Prop),
+  (forall a b, S a -> S b -> H a = H b -> a = b) ->
+  forall jd fr, code_ok (fst fr) -> frame_paired H S fr -> cache_ok H S jd ->
+  exists jd', run_frame jd fr = (exec_spec (frame_fuel (fst fr)) (fst fr) 0 [], jd') /\
+              cache_ok H S jd'.
+Proof. exact run_frame_paired. Qed.
+Print Assumptions C30_paired_frame_matches_definition.
+
+(* the obligation is necessary: the same non-zero hash handed out with two different
+   codes makes the second frame accept a jump into its own PUSH data *)
+Theorem C30_unpaired_frames_wrong :
+  let X := [96; 4; 86; 0; 91; 0]%N in
+  let Y := [96; 4; 86; 97; 91; 0]%N in
+  let '(o1, jd1) := run_frame cache_empty (X, 7%N) in
+  let '(o2, _) := run_frame jd1 (Y, 7%N) in
+  o1 = OStop /\ o2 = OStop /\
+  exec_spec (frame_fuel Y) Y 0 [] = OInvalidJump /\
+  fst (run_frame cache_empty (Y, 7%N)) = OInvalidJump.
+Proof. exact unpaired_frames_wrong. Qed.
+Print Assumptions C30_unpaired_frames_wrong.
+
+(* the call paths as they are written (resolveCode / resolveCodeHash read the same
+   account, also through an EIP-7702 designator; initcode gets the zero hash) discharge
+   the obligation whenever the state stores with every code the hash of that code *)
+Theorem C30_call_frame_paired : forall (H : list N -> hash) (S : list N -> Prop),
+  forall kind st prague addr fr, state_ok H S st ->
+  call_frame kind st prague addr = Some fr ->
+  code_ok (fst fr) /\ frame_paired H S fr /\ fst fr = executed_code st prague addr.
+Proof. exact call_frame_paired. Qed.
+Print Assumptions C30_call_frame_paired.
+
+(* every history of code changes at addresses (plain or delegated), calls of the four
+   kinds and creations, all sharing one jumpdest cache: every call ends as the bytecode
+   definition says for the code it executes at that moment, and every frame was paired *)
+Theorem C30_calls_match_definition : forall (H : list N -> hash) (S : list N -> Prop),
+  (forall a b, S a -> S b -> H a = H b -> a = b) ->
+  forall ops prague st jd,
+  Forall (op_ok H S) ops -> state_ok H S st -> cache_ok H S jd ->
+  map fst (run_ops prague st jd ops) = run_ops_def prague st ops /\
+  Forall (fun r => match snd r with Some fr => frame_paired H S fr | None => True end)
+         (run_ops prague st jd ops).
+Proof. exact run_ops_sound. Qed.
+Print Assumptions C30_calls_match_definition.
+
 (* non-vacuity: PUSH2 with two JUMPDEST bytes as data, a real JUMPDEST, then a PUSH32
    truncated by the end of the code (writes into the spare bytes) *)
 Example C30_nonvacuous :
@@ -104,7 +156,17 @@ Example C30_nonvacuous :
   contract_ok (fun c => N.of_nat (length c) + 1)%N (fun c => c = code)
               (new_contract code 7%N) /\
   fst (fst (validJumpdest (new_contract code 7%N)
-              (cache_store cache_empty 7%N [230; 255; 255; 255; 31]%N) 3%N)) = Ok true.
+              (cache_store cache_empty 7%N [230; 255; 255; 255; 31]%N) 3%N)) = Ok true /\
+  (* account 0xA0 delegates (EIP-7702) to 0xB0; B's code changes between two calls of A *)
+  let X := [96; 4; 86; 0; 91; 0]%N in
+  let Y := [96; 4; 86; 97; 91; 0]%N in
+  let des := ([239; 1; 0] ++ repeat 0 19 ++ [176])%N in
+  let ops := [OpSetCode 176 X 11; OpSetCode 160 des 12; OpCall 0 160;
+              OpSetCode 176 Y 13; OpCall 2 160; OpCall 3 176; OpCreate X]%N in
+  map fst (run_ops true state_empty cache_empty ops) = [OStop; OInvalidJump; OInvalidJump; OStop] /\
+  run_ops_def true state_empty ops = [OStop; OInvalidJump; OInvalidJump; OStop] /\
+  map snd (run_ops true state_empty cache_empty ops) =
+    [Some (X, 11); Some (Y, 13); Some (Y, 13); Some (X, 0)]%N.
 Proof.
   cbv zeta.
   split; [vm_compute; reflexivity|]. split; [vm_compute; reflexivity|].
@@ -113,5 +175,6 @@ Proof.
   - unfold contract_ok, new_contract; cbn [c_code c_hash c_analysis].
     split; [vm_compute; reflexivity|]. split; [vm_compute; reflexivity|].
     split; [intros _; split; [reflexivity | vm_compute; reflexivity] | intros a E; discriminate].
-  - vm_compute; reflexivity.
+  - split; [vm_compute; reflexivity|]. split; [vm_compute; reflexivity|].
+    split; vm_compute; reflexivity.
 Qed.
